@@ -317,6 +317,9 @@ fn eval_since(since: u64, env: &PosEnv, info: Option<&CellInfo>, pool: bool) -> 
             }
         }
     }
+    if o.feat.is_none() && metric != 1 && value >= 1u64 << 55 {
+        o.feat = Some(if metric == 2 { "since-time-extreme-value" } else { "since-number-extreme-value" });
+    }
     o
 }
 
@@ -998,6 +1001,24 @@ pub fn make_since(sp: &SinceSpec, env: &PosEnv, info: Option<&CellInfo>) -> u64 
     let base = info.copied().unwrap_or(CellInfo { number: env.number, epoch: env.epoch, ts: env.median, cellbase: false });
     let d = sp.delta as i128;
     let clamp56 = |v: i128| -> u64 { v.clamp(0, (1i128 << 56) - 1) as u64 };
+    // extreme values of the 56-bit field for the number / time metrics (forms 10 and 11, which mean
+    // nothing else for these kinds): the largest value, the smallest second count whose
+    // millisecond value no longer fits 64 bits, the largest that still fits, 2^55
+    if matches!(sp.kind, 1 | 2 | 5 | 6) && sp.form % 12 >= 10 {
+        let v: u64 = match sp.raw % 4 {
+            0 => (1u64 << 56) - 1,
+            1 => u64::MAX / 1000 + 1,
+            2 => u64::MAX / 1000,
+            _ => 1u64 << 55,
+        };
+        let flag = match sp.kind {
+            1 => 0,
+            2 => REL,
+            5 => 2u64 << 61,
+            _ => REL | (2u64 << 61),
+        };
+        return flag | v;
+    }
     match sp.kind {
         0 => 0,
         1 => clamp56(env.number as i128 + d),
